@@ -264,6 +264,89 @@ def gen_project(r, odd_names=0.15, max_pkgs=9):
             "recipes": [x[0] for x in recipes]}
 
 
+def gen_toolbox_project(r):
+    """Tool and sandbox providers that are needed in several sandbox contexts.
+
+    base packages <- tool providers (reached only through `use: [tools]` by most users) <- users.  Users are
+    either built inside a sandbox (own `use: [sandbox]` dependency first, or below a root level sandbox that is
+    forwarded to the following dependencies) or outside, and may depend on later plain users, so that one variant
+    of a tool / user / sandbox provider is needed inside *and* outside of a sandbox and by several users.  For
+    Jenkins these are different packages (different workspaces and jobs) with the same plain Variant-Id."""
+    files = {"config.yaml": dump_yaml({"bobMinimumVersion": BOB_MIN_VERSION})}
+    nbase = r.randrange(1, 3)
+    ntool = r.randrange(1, 3)
+    nuser = r.randrange(2, 5)
+    bases = ["base%d" % i for i in range(nbase)]
+    for b in bases:
+        doc = {"buildScript": "echo build %s" % b, "packageScript": "echo package %s" % b}
+        if r.random() < 0.4:
+            doc["checkoutDeterministic"] = True
+            doc["checkoutScript"] = "echo src %s" % b
+        files["recipes/%s.yaml" % b] = dump_yaml(doc)
+    sandboxes = ["sb"] + (["sb2"] if r.random() < 0.25 else [])
+    for sb in sandboxes:
+        doc = {"buildScript": "echo build %s" % sb, "packageScript": "echo package %s" % sb,
+               "provideSandbox": {"paths": ["/bin", "/usr/bin"]}}
+        if r.random() < 0.4:
+            doc["depends"] = [r.choice(bases)]
+        files["recipes/%s.yaml" % sb] = dump_yaml(doc)
+    tools = []
+    for i in range(ntool):
+        t = "tool%d" % i
+        doc = {"buildScript": "echo build %s" % t, "packageScript": "echo package %s" % t, "provideTools": {"T%d" % i: "."}}
+        deps = r.sample(bases, r.randrange(0, nbase + 1))
+        if i and r.random() < 0.4:
+            # a tool that is built with another tool
+            deps.append({"name": "tool0", "use": ["tools"]})
+            doc["buildTools"] = ["T0"]
+        if deps:
+            doc["depends"] = deps
+        files["recipes/%s.yaml" % t] = dump_yaml(doc)
+        tools.append((t, "T%d" % i))
+    users = ["u%d" % i for i in range(nuser)]
+    # users with a sandbox of their own are only named by the root, before the root's own sandbox (see below)
+    own_sandbox = {u: r.random() < 0.45 for u in users}
+    for i, u in enumerate(users):
+        deps = []
+        own = own_sandbox[u]
+        if own:
+            deps.append({"name": r.choice(sandboxes), "use": ["sandbox"], "forward": True})
+        used = r.sample(tools, r.randrange(1, len(tools) + 1))
+        for (t, tn) in used:
+            deps.append({"name": t, "use": ["tools"] if r.random() < 0.8 else ["result", "tools"]})
+        for v in users[i + 1:]:
+            if not own_sandbox[v] and r.random() < 0.35:
+                deps.append(v)
+        if r.random() < 0.3:
+            deps.append(r.choice(bases))
+        doc = {"depends": deps, "buildScript": "echo build %s" % u, "packageScript": "echo package %s" % u}
+        doc[r.choice(["buildTools", "packageTools"])] = [tn for (_, tn) in used]
+        files["recipes/%s.yaml" % u] = dump_yaml(doc)
+    # root: sandboxed users first (outside of any outer sandbox), then optionally a sandbox for the rest
+    first = [u for u in users if own_sandbox[u]]
+    rest = [u for u in users if not own_sandbox[u]]
+    r.shuffle(first)
+    r.shuffle(rest)
+    deps = list(first)
+    k = r.randrange(0, len(rest) + 1)
+    deps += rest[:k]
+    if r.random() < 0.6 or not first:
+        deps.append({"name": r.choice(sandboxes), "use": ["sandbox"], "forward": True})
+    deps += rest[k:]
+    if r.random() < 0.3:
+        t, tn = r.choice(tools)
+        deps.append({"name": t, "use": ["tools"]})
+        rootdoc = {"root": True, "depends": deps, "buildTools": [tn]}
+    else:
+        rootdoc = {"root": True, "depends": deps}
+    rootdoc.update({"buildScript": "echo build root", "packageScript": "echo package root"})
+    files["recipes/root.yaml"] = dump_yaml(rootdoc)
+    roots = ["root"]
+    inner = ["root/" + u for u in users]
+    return {"files": files, "roots": roots, "inner": inner, "packages": ["root"] + users + [t for t, _ in tools] + bases + sandboxes,
+            "recipes": ["root"] + users}
+
+
 def gen_case_options(r, proj):
     """root selection (order matters), prefix, isolate regex, description mode, sandbox mode"""
     cand = list(proj["roots"])
